@@ -421,4 +421,4 @@ func FuzzC17(f *testing.F) {
 	}))
 }
 
-func TestReplay(t *testing.T) { vstat.RunReplays(t, propC17) }
+func TestReplay(t *testing.T) { vstat.RunReplays(t, propC17, propC17Conc) }
